@@ -39,3 +39,6 @@ MUTANTS.append(dict(name="path-completion-hits-core-namespace", file='context/re
 MUTANTS.append(dict(name="required-first-sort-before-path-variable-synthesis", file='visit/endpoint/processors/parameter_processor.py', expect="R1.13", old='        final_ordered_params = self._ensure_path_variables_as_params(op, ordered_params, param_details_map)\n\n        # Sort parameters: required first, then optional.\n        # We use a stable sort by negating \'required\' (True becomes -1, False becomes 0).\n        # Parameters with the same required status maintain their relative order.\n        final_ordered_params.sort(key=lambda p: not p["required"])\n', new='        ordered_params.sort(key=lambda p: not p["required"])\n        final_ordered_params = self._ensure_path_variables_as_params(op, ordered_params, param_details_map)\n'))
 MUTANTS.append(dict(name="param-suffix-glued-on-after-sanitising", file='visit/endpoint/processors/parameter_processor.py', expect="R1.9", old='                    param_name_sanitized = NameSanitizer.sanitize_method_name(f"{base_param_name}_{suffix}")\n', new='                    param_name_sanitized = f"{base_param_name}_{suffix}"\n'))
 MUTANTS.append(dict(name="secondary-success-always-returns-a-value", file='visit/endpoint/generators/response_handler_generator.py', expect="R1.14", old='        if strategy.is_streaming:\n            if value_expr is not None:\n                writer.write_line(f"yield {value_expr}")\n            writer.write_line("return  # Explicit return for async generator")\n        else:\n            writer.write_line(f"return {value_expr if value_expr is not None else \'None\'}")\n', new='        writer.write_line(f"return {value_expr if value_expr is not None else \'None\'}")\n'))
+MUTANTS.append(dict(name='enum-member-dedup-tests-once', file='visit/model/enum_generator.py', expect='R1.15', old='            while unique_member_name in processed_member_names:\n', new='            if unique_member_name in processed_member_names:\n'))
+MUTANTS.append(dict(name='overload-positional-param-gets-default', file='visit/endpoint/generators/overload_generator.py', expect='R1.16', old='                    param_parts.append(f"{sanitized_name}: {param_type}")\n', new='                    param_parts.append(f"{sanitized_name}: {param_type} = None" if not param.required else f"{sanitized_name}: {param_type}")\n', count=2, also='first-only'))
+MUTANTS.append(dict(name='core-root-not-spared-from-completion', file='context/render_context.py', expect='R1.11', old='            in_core_package = logical_module == self.core_package_name or logical_module.startswith(\n', new='            in_core_package = logical_module.startswith(\n', count=2, also='first-only'))
